@@ -18,47 +18,47 @@ import (
 
 // decodedResponse is what an independent decoder reads from an IdP-emitted POST form.
 type decodedResponse struct {
-	Form        *htmlform.Form
-	Raw         []byte // decoded Response XML
-	Resp        *etree.Element
-	Destination string
-	InResponseTo *string
-	RespIssuer  string
-	StatusCode  string
+	Form             *htmlform.Form
+	Raw              []byte // decoded Response XML
+	Resp             *etree.Element
+	Destination      string
+	InResponseTo     *string
+	RespIssuer       string
+	StatusCode       string
 	RespIssueInstant string
 
 	NAssertions, NEncrypted int
-	Encrypted   bool
-	EncEl       *etree.Element
-	Plain       []byte // decrypted assertion bytes (if encrypted)
-	Ass         *etree.Element
-	AssIssuer   string
-	NameID      string
-	NameIDFormat string
-	SPNameQualifier string
-	Confs       []decodedConf
+	Encrypted               bool
+	EncEl                   *etree.Element
+	Plain                   []byte // decrypted assertion bytes (if encrypted)
+	Ass                     *etree.Element
+	AssIssuer               string
+	NameID                  string
+	NameIDFormat            string
+	SPNameQualifier         string
+	Confs                   []decodedConf
 	NotBefore, NotOnOrAfter string
-	Audiences   []string
-	SessionIndex string
-	Attrs       []decodedAttr
+	Audiences               []string
+	SessionIndex            string
+	Attrs                   []decodedAttr
 
-	RespSigs, AssSigs int
-	RespSigOK, AssSigOK bool
-	RespSigErr, AssSigErr string
-	RespSigAlg, AssSigAlg string
+	RespSigs, AssSigs         int
+	RespSigOK, AssSigOK       bool
+	RespSigErr, AssSigErr     string
+	RespSigAlg, AssSigAlg     string
 	RespSigCerts, AssSigCerts []string
 }
 
 type decodedConf struct {
-	Method string
-	HasData bool
-	InResponseTo *string
+	Method                           string
+	HasData                          bool
+	InResponseTo                     *string
 	Recipient, NotOnOrAfter, Address string
 }
 
 type decodedAttr struct {
 	Name, FriendlyName, NameFormat string
-	Values []string
+	Values                         []string
 }
 
 func attrPtr(el *etree.Element, k string) *string {
